@@ -5,6 +5,7 @@ PINS = {
     "CxxParser._parse_pqname": "9b86aa54a596b94cc2b61c3d",
     "CxxParser._parse_pqname_fundamental": "c43df300cc5e69034fa0430a",
     "CxxParser._parse_pqname_name": "57907dedd1f043a29a26b03a",
+    "CxxParser._parse_template_specialization": "5a182492661bd74ea73fb235",
 }
 
 
